@@ -244,9 +244,9 @@ GENERIC = {"Gamma", "Logistic", "Gumbel"}
 @st.composite
 def law_params(draw, family: str):
     if family == "Uniform":
-        return {"a": draw(LOC), "w": draw(WIDTH)}
+        return {"a": draw(st.one_of(LOC, st.sampled_from([-1.0, -0.5]))), "w": draw(WIDTH)}
     if family == "Normal":
-        return {"mu": draw(LOC), "sigma": draw(SCALE)}
+        return {"mu": draw(st.one_of(LOC, st.sampled_from([0.0, 0.5, -1.0]))), "sigma": draw(SCALE)}
     if family == "Triangular":
         return {"a": draw(LOC), "w": draw(WIDTH), "c": draw(st.sampled_from([0.5, 0.05, 0.25, 0.8, 0.95]))}
     if family == "Exponential":
@@ -284,6 +284,9 @@ def ot_option(draw, family: str, q: dict):
     kind = draw(st.sampled_from(["none", "truncate", "truncate", "affine"] if family in ("Normal", "Uniform", "Exponential") else ["none", "none", "affine"]))
     if kind == "truncate" and family in ("Normal", "Uniform", "Exponential"):
         side = draw(st.sampled_from(["both", "lower", "upper"]))
+        # a bound exactly equal to 0.0 with the other one absent (0.0 is a bound like any other), when 0 splits the mass
+        if side != "both" and 0.02 <= Law(family, q).cdf(0.0) <= 0.98 and draw(st.integers(0, 2)) > 0:
+            return {"kind": "truncate", "lower": 0.0 if side == "lower" else None, "upper": 0.0 if side == "upper" else None}
         if family == "Normal":
             z1, z2 = sorted(draw(st.lists(st.sampled_from([-2.0, -1.0, -0.5, 0.0, 0.5, 1.0, 2.0]), min_size=2, max_size=2, unique=True)))
             lo, hi = q["mu"] + q["sigma"] * z1, q["mu"] + q["sigma"] * z2
@@ -793,6 +796,18 @@ def check_statistics(p, ctx, samples, names, sizes, start):
                   "space:statistics", f"variance[{name}] = {g.tolist()}, sum of squares / n = {(ss / n).tolist()}")
         s = np.asarray(std[name], dtype=float).ravel()
         ctx.check(s.shape == g.shape and bool(np.all(np.abs(s * s - g) <= 1e-10 * g + 1e-300)), "space:statistics", f"standard deviation[{name}]^2 = {(s * s).tolist()}, variance {g.tolist()}")
+    # central moments mean((x - mean)^k): order 2 is the population variance
+    for order in (2, 3, 4):
+        got = stats.compute_moment(order)
+        ctx.check(sorted(got) == sorted(names), "space:statistics", f"moment({order}): keys {sorted(got)}")
+        for name in names:
+            centred = cols[name] - cols[name].sum(0) / n
+            expected = (centred**order).sum(0) / n
+            g = np.asarray(got[name], dtype=float).ravel()
+            # same data, another summation order: 1e-10 relative to the largest term
+            tol = 1e-10 * np.max(np.abs(centred), axis=0) ** order + 1e-300
+            ctx.check(g.shape == expected.shape and bool(np.all(np.abs(g - expected) <= tol)), "space:statistics",
+                      f"moment({order})[{name}] = {g.tolist()}, mean((x-mean)^{order}) = {expected.tolist()}")
     prob = p["prob"]
     quant = stats.compute_quantile(prob)
     for name in names:
